@@ -61,6 +61,9 @@ func VerifyUnit(L *Loaded, db *ContractDB, pkg *packages.Package, fd *ast.FuncDe
 	}
 	for _, cs := range cases {
 		x := &Exec{L: L, pkg: pkg, db: db, unit: prop + "/" + unit, prop: prop, mode: c.Ints, declared: map[string]bool{}, obls: map[string]*Obligation{}, con: c, caseName: cs.Label}
+		for name := range L.specs {
+			x.declared[name] = true // declared by the spec prelude
+		}
 		func() {
 			defer func() {
 				if r := recover(); r != nil {
@@ -318,6 +321,18 @@ func (x *Exec) runBody(recv *ast.FieldList, ftype *ast.FuncType, body *ast.Block
 			x.contract = true
 		}
 		x.checkExits(c, o, "return")
+		if len(c.Completes) > 0 && o.names["$execInstalled"] != true {
+			for i, cl := range c.Completes {
+				lab := cl.Label
+				if lab == "" {
+					lab = fmt.Sprintf("completes%d", i+1)
+				}
+				x.contract = true
+				phi := x.evalBool(cl.Expr, o)
+				x.contract = false
+				x.oblige(o, "post", "complete:"+lab, not(phi), cl.Src)
+			}
+		}
 		for i, cn := range c.Canaries {
 			lab := cn.Label
 			if lab == "" {
@@ -377,4 +392,147 @@ func (x *Exec) checkExits(c *Contract, o *State, how string) {
 			ob.Prop = en.Prop
 		}
 	}
+}
+
+// verifyInlineLit verifies a function literal at the point of the generator where it is created:
+// its captured variables are exactly the generator's symbolic store on this path.
+func (x *Exec) verifyInlineLit(lit *ast.FuncLit, st *State, params, results []string, requires, ensures []Clause, kind string) {
+	info := x.info()
+	ls := st.clone()
+	ls.out = outNormal
+	path := strings.Join(st.trace, "/")
+	var pobjs []types.Object
+	for _, f := range lit.Type.Params.List {
+		if len(f.Names) == 0 {
+			pobjs = append(pobjs, nil)
+		}
+		for _, n := range f.Names {
+			pobjs = append(pobjs, info.Defs[n])
+		}
+	}
+	if len(params) != len(pobjs) {
+		engineFail("%s: literal at %s has %d parameters, the contract names %d", x.unit, path, len(pobjs), len(params))
+	}
+	x.nlit++
+	savePos := x.inlineLitPos
+	x.inlineLitPos = lit.Body.Lbrace + 1
+	defer func() { x.inlineLitPos = savePos }()
+	saveNames := map[string]Value{}
+	for i, o := range pobjs {
+		if o == nil {
+			continue
+		}
+		v := x.declConst(fmt.Sprintf("lit%d_%s", x.nlit, params[i]), x.sortOf(o.Type()))
+		x.rangeAssume(ls, v, o.Type())
+		if _, isPtr := o.Type().Underlying().(*types.Pointer); isPtr {
+			ls.assume("(> " + v.S + " 0)")
+		}
+		ls.env[o] = v
+		saveNames[params[i]] = v
+		ls.names[params[i]] = v
+		ls.names["$type:"+params[i]] = o.Type()
+	}
+	saveCtx := x.saveContractCtx()
+	x.contract = true
+	for _, r := range requires {
+		ls.assume(x.evalBool(r.Expr, ls))
+	}
+	x.restoreContractCtx(saveCtx)
+	pre := ls.clone()
+	ls.old = pre
+	saveRet, saveLoops, saveDepth := x.retObjs, x.loopOrd, x.litDepth
+	x.retObjs = nil
+	x.loopOrd = nil
+	x.litDepth++
+	outs := x.execBlock(lit.Body.List, ls)
+	x.retObjs, x.loopOrd, x.litDepth = saveRet, saveLoops, saveDepth
+	var resTypes []types.Type
+	if lit.Type.Results != nil {
+		for _, f := range lit.Type.Results.List {
+			n := len(f.Names)
+			if n == 0 {
+				n = 1
+			}
+			for i := 0; i < n; i++ {
+				resTypes = append(resTypes, info.TypeOf(f.Type))
+			}
+		}
+	}
+	saveUnit := x.unit
+	x.unit = saveUnit + "/" + path
+	defer func() { x.unit = saveUnit }()
+	for _, o := range outs {
+		if o.out == outPanic {
+			phi := "false"
+			if x.allowPanic != "" {
+				phi = x.allowPanic
+			}
+			// panics inside run-time closures are judged by the contract's exec-ensures `panics` vocabulary
+			o.names["panicked"] = boolLit(true)
+			_ = phi
+		} else {
+			o.names["panicked"] = boolLit(false)
+		}
+		if o.out != outPanic && len(o.rets) != len(results) {
+			engineFail("%s: literal returns %d values, the contract names %d", x.unit, len(o.rets), len(results))
+		}
+		for i, n := range results {
+			if o.out == outPanic {
+				o.names[n] = zeroOf(x.sortOf(resTypes[i]))
+			} else {
+				o.names[n] = o.rets[i]
+			}
+			o.names["$type:"+n] = resTypes[i]
+		}
+		o.names["panicNote"] = strLit(o.note)
+		for k, v := range saveNames {
+			o.names[k] = v
+		}
+		o.old = pre
+		o.out = outNormal
+		saveCtx := x.saveContractCtx()
+		for i, en := range ensures {
+			lab := en.Label
+			if lab == "" {
+				lab = fmt.Sprintf("%s%d", kind, i+1)
+			}
+			if strings.HasPrefix(en.Prop, "mode:") {
+				if en.Prop != "mode:"+x.mode {
+					continue
+				}
+			}
+			if strings.HasPrefix(en.Prop, "local:") {
+				// the clause only applies to literals that have this generator local in scope
+				name := strings.TrimPrefix(en.Prop, "local:")
+				inScope := false
+				if sc := x.pkg.Types.Scope().Innermost(x.inlineLitPos); sc != nil {
+					if _, obj := sc.LookupParent(name, x.inlineLitPos); obj != nil {
+						if _, ok := o.env[obj]; ok {
+							inScope = true
+						}
+					}
+				}
+				if !inScope {
+					continue
+				}
+			}
+			x.contract = true
+			phi := x.evalBool(en.Expr, o)
+			x.contract = false
+			okind := "post"
+			if strings.HasPrefix(lab, "canary:") {
+				okind, lab = "canary", strings.TrimPrefix(lab, "canary:")
+			}
+			ob := x.oblige(o, okind, lab, phi, en.Src)
+			if okind == "canary" {
+				ob.MustFail = true
+			}
+			if en.Prop != "" && !strings.HasPrefix(en.Prop, "local:") && !strings.HasPrefix(en.Prop, "mode:") {
+				ob.Prop = en.Prop
+			}
+		}
+		x.restoreContractCtx(saveCtx)
+	}
+	x.nlitVerified++
+	st.names["$execInstalled"] = true
 }
